@@ -24,6 +24,10 @@ func genCase(t *rapid.T) arith.Case {
 	if c.X.Coeff == "0" {
 		c.X.Coeff = "2"
 	}
+	if c.Op == "cbrt" && gen.Pick(t, 3, "traps") == 0 {
+		// an exact result raises no condition, so no trap set may turn it into an error
+		c.Ctx.Traps = rapid.Uint32Range(1, 1<<12-1).Draw(t, "trapset")
+	}
 	return c
 }
 
@@ -32,6 +36,19 @@ func check(c arith.Case, st *core.Stats) error {
 	core.Guard(st, func() { o = arith.Exec(c) })
 	st.Class("op:" + c.Op)
 	limit := arith.NearLimit(c, nil)
+	if c.Ctx.Traps != 0 {
+		// under traps only the exactness clause is judged: a perfect cube whose root fits is
+		// returned exactly with no condition and therefore no error
+		ex, exact := ref.CbrtExact(c.X, int64(c.Ctx.P))
+		want := ref.Round(ex, c.Ctx)
+		if c.Op == "cbrt" && exact && !want.Inexact && want.Form == apd.Finite && !want.Sub && !limit {
+			st.NonTrivial("perfect-cube-under-traps")
+			if o.Err != nil || o.Res != 0 || !ref.SameValue(o.D, want) {
+				return fmt.Errorf("%v: perfect cube whose root %v fits the precision, got %s flags=%s err=%v under traps %s", c, want, core.Show(o.D), core.FlagStr(o.Res), o.Err, core.FlagStr(apd.Condition(c.Ctx.Traps)))
+			}
+		}
+		return nil
+	}
 	if o.Err != nil {
 		if limit {
 			return nil
